@@ -224,4 +224,10 @@ def lowerDimChunks (a b : List Nat) : List Nat := a.flatMap (fun x => b.map (fun
 def reshapeMergeBlocks {α} (rowChunks : List Nat) (rows : List (List α)) : List (List α) :=
   (splitBy rowChunks rows).map List.flatten
 
+/-- merge-reshape `(R, m) -> (R*m,)` in the "only moving blocks around" case of `reshape_rechunk`: every row is its own
+    chunk and the columns are chunked `cc`; block `(i, j)` (a `1 × c_j` piece of row `i`) becomes output block `i*k + j` -/
+def reshapeMergeOnesBlocks {α} (cc : List Nat) (rows : List (List α)) : List (List α) :=
+  rows.flatMap (fun row => splitBy cc row)
+
+
 end Dask.Structural
